@@ -16,7 +16,9 @@ f(d0.Setting)
 f(d1.Setting)
 d2.Setting = 1
 """
-CONST_TESTS = ["0", "1", "2", "-1", "0.5", "6 & 2", "4 - 4", "True", "False", "LEVEL", "FLAGS & 2", "FLAGS & 1"]
+CONST_TESTS = ["0", "1", "2", "-1", "0.5", "6 & 2", "4 - 4", "True", "False", "LEVEL", "FLAGS & 2", "FLAGS & 1",
+               # named constants that are falsy, and tests that reach a constant only through propagation
+               "OFF", "DEBUG", "ZERO", "OFF + 1", "LEVEL - 2", "OFF * LEVEL"]
 
 
 def const_test_programs():
@@ -27,6 +29,9 @@ def const_test_programs():
             out.append((f"const_test:{i}:{'not' if neg else 'pos'}", HDR + f"""
 FLAGS = 6
 LEVEL = 2
+OFF = 0
+DEBUG = False
+ZERO = 0.0
 
 def slow_step(v):
     db.Setting = v
@@ -47,6 +52,9 @@ db.Open = 7
             out.append((f"const_test:{i}:nocall", HDR + f"""
 FLAGS = 6
 LEVEL = 2
+OFF = 0
+DEBUG = False
+ZERO = 0.0
 
 def slow_step(v):
     db.Setting = v
@@ -54,6 +62,22 @@ def slow_step(v):
 if {neg}{t}:
     db.On = 1
 else:
+    slow_step(5)
+    slow_step(6)
+db.Open = 7
+"""))
+            # the same with the calls in the `if` branch (dead when the constant is falsy)
+            out.append((f"const_test:{i}:nocall_rev", HDR + f"""
+FLAGS = 6
+LEVEL = 2
+OFF = 0
+DEBUG = False
+ZERO = 0.0
+
+def slow_step(v):
+    db.Setting = v
+
+if {neg}{t}:
     slow_step(5)
     slow_step(6)
 db.Open = 7
